@@ -372,6 +372,13 @@ def outcome(design, rng, perm):
       top.elaborate()
       return None, src, ""
     except Exception as e:
+      # a history: the rejected object is elaborated AGAIN (a script that catches the error and retries, a pass group that calls
+      # elaborate() itself): the design is as illegal as before and must not be accepted now
+      try:
+        top.elaborate()
+        return type(e).__name__ + "-but-accepted-by-a-second-elaborate()", src, str(e)[:300]
+      except Exception:
+        pass
       return type(e).__name__, src, str(e)[:300]
   finally:
     G.unload(mod)
